@@ -179,6 +179,8 @@ type LdRec struct { // loader invocation
 	Val     int64  `json:"v"`
 	Cost    int64  `json:"cost"`
 	TTL     int64  `json:"ttl"`
+	Resident bool  `json:"res,omitempty"` // white-box: the key was resident and unexpired in the map when the loader was invoked
+	ResVal  int64  `json:"resv,omitempty"`
 	Outcome string `json:"o"` // ok err panic exit
 	Token   string `json:"tok,omitempty"`
 	Task    int    `json:"task"`
